@@ -143,6 +143,10 @@ class Normalise(ast.NodeTransformer):
             if isinstance(tt, ast.UnaryOp) and isinstance(tt.op, ast.Not):
                 tt = tt.operand
             return isinstance(tt, ast.Name) and tt.id == t
+        if isinstance(b, (ast.Assign, ast.AugAssign)):
+            # `t = E` ; `x = t` / `x += t` (t is the whole right-hand side and not the target)
+            tg = b.targets if isinstance(b, ast.Assign) else [b.target]
+            return isinstance(b.value, ast.Name) and b.value.id == t and not any(isinstance(x, ast.Name) and x.id == t for g in tg for x in ast.walk(g))
         return False
 
     visit_AsyncFunctionDef = visit_FunctionDef
@@ -180,6 +184,10 @@ class Normalise(ast.NodeTransformer):
             if isinstance(tt, ast.UnaryOp) and isinstance(tt.op, ast.Not) and isinstance(tt.operand, ast.Name) and tt.operand.id == t:
                 return ast.copy_location(ast.If(test=self.visit(_negate(e)), body=s.body, orelse=s.orelse), s)
             return None
+        if isinstance(s, ast.Assign) and isinstance(s.value, ast.Name) and s.value.id == t and self._reads_only(s, t):
+            return self.visit_Assign(ast.copy_location(ast.Assign(targets=s.targets, value=e, lineno=s.lineno), s))
+        if isinstance(s, ast.AugAssign) and isinstance(s.value, ast.Name) and s.value.id == t and self._reads_only(s, t):
+            return ast.copy_location(ast.AugAssign(target=s.target, op=s.op, value=e), s)
         return None
 
     def _block(self, stmts):
@@ -211,4 +219,6 @@ class Normalise(ast.NodeTransformer):
 
 
 def normalise(tree):
-    return ast.fix_missing_locations(Normalise().visit(tree))
+    from .desugar import desugar
+
+    return ast.fix_missing_locations(Normalise().visit(desugar(tree)))
